@@ -525,7 +525,7 @@ def gen_resolver(rng):
             v = gen_expr(rng, rng.choice([1, 2, 2, 3]), later, allow_fn=not cyclic)
         entries.append((s, v))
     for s in INT_SYMS:
-        if rng.random() < 0.6:
+        if rng.random() < 0.88:
             entries.append((s, rng.choice([0, 1, 2, 2, 3])))
     for s in POS_SYMS:
         if rng.random() < 0.6:
@@ -675,7 +675,7 @@ def skeleton(t, entries):
     return t[1] + '(' + ','.join(skeleton(c, entries) for c in t[2]) + ')'
 
 
-def judge_value_of(cirq, entries, e, recursive=True, envs=None):
+def judge_value_of(cirq, entries, e, recursive=True, envs=None, only_exception=None):
     """Spec-level verdict on the real code for one query on a fresh resolver: None if the property holds, else
     (kind, message).  Expected: RecursionError iff the query depends on a cycle; otherwise the value obtained by
     substitution."""
@@ -689,24 +689,8 @@ def judge_value_of(cirq, entries, e, recursive=True, envs=None):
         err = 'RecursionError'
     except Exception as ex:
         err = type(ex).__name__
-        if os.environ.get('C10_DEBUG'):
-            import traceback
-            print('DEBUG judge', entries, sympy.srepr(e))
-            traceback.print_exc()
-            r3 = make_resolver(cirq, entries)
-            for a_ in getattr(e, 'args', ()):
-                try:
-                    x_ = r3.value_of(a_)
-                    print('   same-resolver arg', sympy.srepr(a_), '->', repr(x_), type(x_), r3._deep_eval_map, [type(k) for k in r3._deep_eval_map])
-                except Exception as ex3:
-                    print('   same-resolver arg', sympy.srepr(a_), 'raised', ex3)
-            for a_ in getattr(e, 'args', ()):
-                r2 = make_resolver(cirq, entries)
-                try:
-                    x_ = r2.value_of(a_)
-                    print('   arg', sympy.srepr(a_), '->', repr(x_), type(x_), r2._deep_eval_map)
-                except Exception as ex2:
-                    print('   arg', a_, 'raised', ex2)
+    if only_exception is not None:       # minimising an unexpected exception: the reference value is not needed
+        return (err, f'value_of({e}) raised {err}') if err == only_exception else None
     if recursive:
         want = ref_resolve(entries, e)
     else:
@@ -742,30 +726,40 @@ def subexprs(e):
 
 def spec_value_of(ctx, cirq, entries, e, recursive, envs, stream):
     """Decide on the real code whether the property's statement fails for this query; minimise to the smallest failing
-    sub-expression (and only the dictionary entries it needs) so that the signature is stable."""
+    sub-expression (descending into dictionary values, then dropping dictionary entries that are not needed) so that the
+    signature names the call site: value_of:<what goes wrong>:<head of the smallest failing expression>."""
+    import sympy
     verdict = judge_value_of(cirq, entries, e, recursive, envs)
     if verdict is None:
         return False
-    best = (e, entries, verdict)
-    for s in sorted(subexprs(e), key=lambda x: len(str(x))):
-        v = judge_value_of(cirq, entries, s, recursive, envs)
-        if v is not None:
-            best = (s, entries, v)
+    sd = sym_dict(entries)
+    exc = verdict[0] if verdict[0] not in ('nan', 'value', 'symbols', 'no-loop-detected', 'RecursionError') else None
+    for _ in range(40):
+        smaller = None
+        for s in sorted(subexprs(e)[1:], key=lambda x: len(str(x))):
+            v = judge_value_of(cirq, entries, s, recursive, envs, exc)
+            if v is not None:
+                smaller = (s, v)
+                break
+        if smaller is None and isinstance(e, sympy.Symbol) and e in sd and sd[e] != e and not sd[e].is_Number:
+            v = judge_value_of(cirq, entries, sd[e], recursive, envs, exc)
+            if v is not None:
+                smaller = (sd[e], v)
+        if smaller is None:
             break
-    s, ents, v = best
-    needed = list(ents)
-    for kv in list(needed):                       # drop dictionary entries that are not needed for the failure
+        e, verdict = smaller
+    needed = list(entries)
+    for kv in list(needed):
         trial = [x for x in needed if x is not kv]
-        v2 = judge_value_of(cirq, trial, s, recursive, envs)
-        if v2 is not None and v2[0] == v[0]:
-            needed, v = trial, v2
-    try:
-        sk = skeleton(to_tree(s), needed)
-    except Unsupported:
-        sk = type(s).__name__
-    sig = f'value_of:{v[0]}:{sk}'
-    ctx.violation(sig, f'ParamResolver({dict(needed)!r}).{v[1]}',
-                  dict(kind='value_of', entries=[[k, repr_value(x)] for k, x in needed], expr=sympy_srepr(s), recursive=recursive))
+        v2 = judge_value_of(cirq, trial, e, recursive, envs, exc)
+        if v2 is not None and v2[0] == verdict[0]:
+            needed, verdict = trial, v2
+    verdict = judge_value_of(cirq, needed, e, recursive, envs) or verdict
+    head = 'sym' if isinstance(e, sympy.Symbol) else type(e).__name__.lower()
+    sig = f'value_of:{verdict[0]}:{head}'
+    mode = '' if recursive else ', recursive=False'
+    ctx.violation(sig, f'ParamResolver({dict(needed)!r}): {verdict[1]}{mode}',
+                  dict(kind='value_of', entries=[[k, repr_value(x)] for k, x in needed], expr=sympy_srepr(e), recursive=recursive))
     return True
 
 
